@@ -62,6 +62,7 @@ class PushGraph:
         self.H = height.Height(F)
         self.edges = {}      # node -> list of (dst node, cov, site)
         self.destr = {}      # node -> list of (site, cov, what)
+        self.consumers = {}  # node -> list of (site of the forcing push, consumer node, cov of the consumer's push, its site)
         self.payforce = set()  # nodes that force an element of a container they received as an argument
         self.vscalls = []    # (node, callee node, cov, site): helper called with a container popped from the value stack
         self.unknown = []    # (node, site) pushes whose variant could not be determined
@@ -150,6 +151,11 @@ class PushGraph:
                     st = _stack_field(self.F, body, t["xs"][0])
                     tags.add("vs" if st == "value_stack" else "other")
                     continue
+                if n in ("<[T]>::last", "<[T]>::last_mut", "<[T]>::first", "<[T]>::get", "<[T]>::get_mut", "<[T]>::split_last"):
+                    # peeking at the value stack (through the Vec's deref to a slice) hands out a run-time value like a pop does
+                    if self._stack_slice(body, defs, t["xs"][0]) == "value_stack":
+                        tags.add("vs")
+                        continue
                 if n.startswith("<%s>::" % EVAL) and "expect_std_func_arg" in n:
                     # the argument helpers hand back the payload of the value they are given
                     for a in t["xs"][1:2]:
@@ -175,6 +181,24 @@ class PushGraph:
             else:
                 tags.add("other")
         return tags
+
+    def _stack_slice(self, body, defs, op):
+        """name of the Evaluator stack a `&[T]` operand is the deref of"""
+        if op["k"] not in ("move", "copy") or op["p"]:
+            return None
+        for bb, si, rv in defs.get(op["l"], []):
+            if rv["k"] == "call":
+                n = callee_name(rv["t"]) or ""
+                if n.endswith("core::ops::deref::Deref>::deref") or n.endswith("core::ops::deref::DerefMut>::deref_mut") \
+                        or n in ("<alloc::vec::Vec>::as_slice", "<alloc::vec::Vec>::as_mut_slice"):
+                    return _stack_field(self.F, body, rv["t"]["xs"][0])
+            elif rv["k"] in ("use", "cast") and rv["x"]["k"] in ("move", "copy") and not rv["x"]["p"]:
+                return self._stack_slice(body, defs, rv["x"])
+            elif rv["k"] == "ref" and rv["p"]["p"] in ([], ["*"]):
+                r = self._stack_slice(body, defs, {"k": "copy", "l": rv["p"]["l"], "p": []})
+                if r is not None:
+                    return r
+        return None
 
     def _scan(self, node, body, entry, blocked=()):
         defs = self._defs(body)
@@ -213,6 +237,8 @@ class PushGraph:
                         tags = self._thunk_origin(body, defs, rv["xs"][0])
                         if "vs" in tags:
                             self.destr.setdefault(node, []).append((site, h, sorted(tags)))
+                            for cv, ch, csite in self._consumers(body, defs, dmin, b, seen):
+                                self.consumers.setdefault(node, []).append((site, ("S", cv), ch, csite))
                         if "payload" in tags and node[0] == "F":
                             self.payforce.add(node)
             elif n.startswith("<%s>::" % EVAL):
@@ -226,6 +252,34 @@ class PushGraph:
                             atags |= self._thunk_origin(body, defs, {"k": "copy", "l": a["l"], "p": []})
                     if "vs" in atags:
                         self.vscalls.append((node, ("F", n), h, site))
+
+    def _consumers(self, body, defs, dmin, b, seen):
+        """the states that run right after a `DoThunk(element)` pushed at block b, i.e. the consumers of the element's value: on
+        every backward path the nearest earlier push onto the state stack that is neither a DoThunk nor a trace-item marker.
+        Returns [(variant, height at that push, site)]."""
+        pred = {}
+        for x in seen:
+            for y in body.succs(x):
+                pred.setdefault(y, []).append(x)
+        out = []
+        done = set()
+        work = list(pred.get(b, []))
+        while work:
+            x = work.pop()
+            if x in done or x not in seen:
+                continue
+            done.add(x)
+            t = body.blocks[x]["t"]
+            if t["k"] == "call" and (callee_name(t) or "") == "<alloc::vec::Vec>::push" \
+                    and _stack_field(self.F, body, t["xs"][0]) == "state_stack":
+                vs = self._state_variants(body, defs, t["xs"][1])
+                if vs is not None and any(v not in ("DoThunk",) for v, _, _ in vs):
+                    for v, _, _ in vs:
+                        if v != "DoThunk":
+                            out.append((v, dmin.get(x, 0), body.span(t["sp"])))
+                    continue
+            work.extend(pred.get(x, []))
+        return out
 
     def _fn_const(self, body, defs, op, depth=0):
         """function(s) a fn-pointer operand was reified from"""
